@@ -67,4 +67,8 @@ CHECKS = {
         "after a fault-free restart every group equals the stored image, a short count yields an abort or a node error. Edges + probe (error query, RAM and NVM dumps, restart, reset communication) and walks for three layouts are replayed comparing every NVM driver call (offset, length, count, data), RAM changes, COParaDefault calls, SDO verdicts and CONodeGetErr.",
    note=MC_NOTE + " Named deviation InitLoadStopsAtFirstFault: after a faulty load of the reset-node groups at node start the RAM of the other groups is not asserted.",
    technique="TLA+/TLC model checking + edge-cover behaviours (incl. fault injection and restarts) replayed against the C code", ref="DESIGN.md section 8, C17"),
+ "C19": dict(
+   text="CoCsdo models one SDO client with its per-step timeout and an environment server (conforming, aborting, silent, wrong toggle / command / size / multiplexer). TLC checks on every transition: the completion callback comes exactly once per accepted request, a busy client refuses, an idle client has nothing armed, a timeout sends the abort frame. "
+        "Edges + probe (state, timer pool occupancy, ticks beyond every timeout, buffer dump, a second transfer with a longer timeout that a stale timer would abort, a third transfer without timeout) and walks are replayed, plus complete conforming dialogues of 255..2000 bytes; compared: request / segment frames with size, toggle, last marking and data, callback code, user buffer content, API return class, free timer slots.",
+   note=MC_NOTE, technique="TLA+/TLC model checking + edge-cover behaviours replayed against the C code", ref="DESIGN.md section 8, C19"),
 }
